@@ -11,7 +11,11 @@ Inductive case :=
    connection's Read calls returned (as logged); n Receive calls: result and bytes taken
    from the connection by each, and Connected() at the end *)
 | CRead (limit : nat) (sizes : list nat) (plan : list rstep) (n : nat)
-        (o_res : list (rres * nat)) (o_connected : bool).
+        (o_res : list (rres * nat)) (o_connected : bool)
+(* a transport accepted by a real listener that was configured with the given read limit (0 = no configuration):
+   what it reports as its limit (0 = the default, 8 MiB), and whether it accepted a frame of the given size sent
+   behind [before] bytes of small frames over a loopback socket *)
+| CAccepted (configured : nat) (reported : nat) (before size : nat) (accepted : bool).
 
 Definition rres_eqb (a b : rres) : bool :=
   match a, b with
@@ -35,6 +39,12 @@ Definition agrees (c : case) : bool :=
       let (r, st) := receives limit sizes (rinit limit) plan n in
       list_eqb (fun a b => rres_eqb (fst a) (fst b) && Nat.eqb (snd a) (snd b)) res r &&
       Bool.eqb conn (negb (rs_eof st))
+  | CAccepted conf rep before size acc =>
+      (* how the socket chunks the stream is not observed: the model's verdict is compared where it does not
+         depend on the chunking (within the limit: accepted; beyond twice the limit plus one: refused) *)
+      Nat.eqb rep conf &&
+      (if Nat.eqb conf 0 then true
+       else if Nat.leb size conf then acc else if Nat.ltb (2 * conf + 1) size then negb acc else true)
   end.
 Definition mismatches (cs : list case) : list nat := bad_indices agrees cs.
 
@@ -44,4 +54,13 @@ Fixpoint prefixb (a b : list nat) : bool :=
   | [], _ => true
   | x :: a', y :: b' => Nat.eqb x y && prefixb a' b'
   | _, [] => false
+  end.
+
+(* did the connection fail before it had delivered the whole stream *)
+Fixpoint early_cut (plan : list rstep) (remaining : nat) : bool :=
+  match plan with
+  | [] => false
+  | RChunk k :: p => early_cut p (remaining - k)
+  | RStall :: p => early_cut p remaining
+  | RCut :: _ | REof :: _ | RCtxDone :: _ => Nat.ltb 0 remaining
   end.
